@@ -703,7 +703,7 @@ class Interp:
             c = z3.simplify(cond)
             if z3.is_false(c):
                 return
-            self.effects.append(("raise", exc, self.cur_guard(c)))
+            self.effects.append(("raise", exc, self.cur_guard(c), []))
             return
         if self.path.branch(cond):
             raise PyRaise(exc)
@@ -1369,7 +1369,7 @@ class Interp:
             raise self._reraise
         v = self.eval_exc(n.exc)
         if self.merge_depth:
-            self.effects.append(("raise", v, self.cur_guard()))
+            self.effects.append(("raise", v, self.cur_guard(), []))
             raise _MergeStop()
         raise PyRaise(v)
 
@@ -1654,28 +1654,39 @@ class Interp:
 
     def lift_raises(self, effects, idx, n):
         """Early-exit rule for raise effects of a summarised body: the loop raises iff
-        some iteration does.  Forks: (witness iteration raises) / (no iteration raises)."""
+        some iteration does.  Forks: (witness iteration raises) / (no iteration raises).
+        Raise effects of nested summarised loops carry their inner loop indices."""
         raises = [e for e in effects if e[0] == "raise"]
         if not raises:
             return
+        P = self.path
         if self.merge_depth:
-            raise Unsupported("raise inside nested summarised loop")
-        any_guard = z3.Or(*[g for _, _, g in raises])
-        w = self.path.fresh_int("w")
-        in_range = z3.And(w >= 0, w < n)
-        if self.path.choose():
-            self.path.assume_checked(z3.And(in_range, z3.substitute(any_guard, (idx, w))))
-            # earlier iterations did not raise (first witness)
-            j = z3.Int(self.path.names.fresh("j"))
-            self.path.facts.append(z3.ForAll([j], z3.Implies(z3.And(j >= 0, j < w), z3.Not(z3.substitute(any_guard, (idx, j))))))
-            for _, exc, g in raises[:-1]:
-                if self.path.branch(z3.substitute(g, (idx, w))):
+            for _, exc, g, inner in raises:
+                self.effects.append(("raise", exc, z3.And(self.cur_guard(), g), list(inner) + [(idx, n)]))
+            return
+        if P.choose():
+            # some iteration raises: pick which raise site (disjunction over sites), with witness indices
+            for site, (_, exc, g, inner) in enumerate(raises):
+                last = site == len(raises) - 1
+                if last or P.choose():
+                    pairs = []
+                    conds = []
+                    for (ix, nn) in list(inner) + [(idx, n)]:
+                        w = P.fresh_int("w")
+                        pairs.append((ix, w))
+                    for (ix, nn), (_, w) in zip(list(inner) + [(idx, n)], pairs):
+                        nnz = z3.substitute(nn, *pairs) if z3.is_expr(nn) else z3.IntVal(nn)
+                        conds.append(z3.And(w >= 0, w < nnz))
+                    P.assume_checked(z3.And(*conds, z3.substitute(g, *pairs)))
                     raise PyRaise(exc)
-            raise PyRaise(raises[-1][1])
-        j = z3.Int(self.path.names.fresh("j"))
-        body = z3.substitute(any_guard, (idx, j))
-        self.path.facts.append(z3.ForAll([j], z3.Implies(z3.And(j >= 0, j < n), z3.Not(body))))
-        self.path.noraise.append((idx, n, any_guard))
+            raise Infeasible()
+        for _, exc, g, inner in raises:
+            loops = list(inner) + [(idx, n)]
+            pairs = [(ix, z3.Int(P.names.fresh("j"))) for ix, _ in loops]
+            rng = [z3.And(j >= 0, j < (z3.substitute(nn, *pairs) if z3.is_expr(nn) else nn)) for (_, nn), (_, j) in zip(loops, pairs)]
+            body = z3.substitute(g, *pairs)
+            P.facts.append(z3.ForAll([j for _, j in pairs], z3.Implies(z3.And(*rng), z3.Not(body))))
+        P.noraise.append((idx, n, [g for _, _, g, _ in raises]))
 
     # ----- loop summarisation (map rule) -----------------------------------
     def summarise_loop(self, target, bodies, it, kind):
@@ -1726,9 +1737,10 @@ class Interp:
     def apply_effects(self, eff, idx, n):
         if self.merge_depth:
             # nested summarised loop: re-emit the effects to the outer log, quantified over this index
+            self.lift_raises(eff, idx, n)
             for e in eff:
                 if e[0] == "raise":
-                    raise Unsupported("raise in nested summarised loop")
+                    continue
                 self.effects.append(("nested", e, idx, n, self.cur_guard()))
             return
         self.lift_raises(eff, idx, n)
